@@ -1,11 +1,19 @@
 """Which units decide which property (DESIGN.md 7, appendix D.2)."""
-from . import api_ops, seam, walks, config, types_c17, pythonic
+from . import api_ops, seam, walks, config, types_c17, pythonic, tables
 
 VC = ("contract-based deductive verification: verification conditions generated on every run from the real ASTs "
       "(symbolic execution of each function against its sidecar contract, callee contracts at the seams) and "
       "discharged by z3 (cvc5 for z3-unknowns); ")
 
 PROPS = {
+    "C16": {
+        "units": [tables.units, pythonic.units_tables], "level": "other", "design_ref": "7.16",
+        "technique": VC + "util.tablify executed on a symbolic stream (OIDs, values, base length symbolic; stream length "
+                     "enumerated) against the row/cell postcondition; Client.table/bulktable checked at their call sites "
+                     "(stream = the walk's stream, column = arc after the entry arc); walks used by their C01/C02 contracts",
+        "trusted_base": ["walk / bulkwalk used by contract (C01, C02)", "oid.nodes, '.'.join, str(int) as uninterpreted functions "
+                         "(str(int) injective)"],
+    },
     "C15": {
         "units": [pythonic.units], "level": "other", "design_ref": "7.15",
         "technique": VC + "every PyWrapper method executed against a raw client used by contract (symbolic raw results of "
